@@ -205,6 +205,10 @@ type c07Step struct {
 	Finish int  `json:"finish,omitempty"` // when no other field is set: finish the (Finish mod n)-th goroutine (sorted by task id)
 	Spawn  *int `json:"spawn,omitempty"`  // create the deferred change with this index
 	Abort  *int `json:"abort,omitempty"`  // Change.Abort() on the change with this index
+	Fail   bool `json:"fail,omitempty"`   // with Finish: the handler returns an error (TaskRunner aborts the task's lanes)
+	// Guarded: with Abort, skip the abort when a task of the change is already Done (Change.Abort on such a change can
+	// panic in this snapd version, finding 11 of DESIGN.md; not this property's business)
+	Guarded bool `json:"guarded,omitempty"`
 }
 
 type c07RIn struct {
@@ -237,10 +241,46 @@ func c07Scripted(mode string) []c07RIn {
 	}
 }
 
+// A serialized handler is executing, its change is aborted by the user or its lane by a failing sibling task (the task
+// gets Abort status, its tomb is killed, the handler keeps executing), and a conflicting task of another change is
+// runnable during the following Ensure passes: it must stay blocked until the first handler has returned.
+func c07AbortFamily() []c07RIn {
+	hook := func(snap int) c07Task { return c07Task{Kind: 0, Snap: snap} }
+	k := func(kind int) c07Task { return c07Task{Kind: kind, Snap: -1} }
+	sib := k(8) // verif-other
+	pairs := [][2]c07Task{
+		{hook(0), hook(0)}, // two hooks of one snap
+		{k(3), k(4)},       // connect / disconnect
+		{k(5), k(6)},       // setup-profiles / auto-connect
+		{k(1), k(1)},       // two prerequisites
+		{k(2), sib},        // update-gadget-assets executing, anything else
+		{sib, k(2)},        // anything executing, update-gadget-assets
+		{k(2), k(2)},
+		{hook(0), k(2)},
+	}
+	var ins []c07RIn
+	for _, p := range pairs {
+		x, y := p[0], p[1]
+		// aborted by the user
+		ins = append(ins, c07RIn{Changes: [][]c07Task{{x}, {y}}, Chain: []bool{false, false}, Deferred: []bool{false, true},
+			Steps: []c07Step{{Ensure: true}, {Spawn: c07Int(1)}, {Abort: c07Int(0)}, {Ensure: true}, {Ensure: true}, {Finish: 0}, {Ensure: true}, {Ensure: true}}})
+		// lane aborted because a sibling task of the same change fails (not possible next to update-gadget-assets,
+		// which runs alone)
+		if c07Kinds[x.Kind] != "update-gadget-assets" {
+			ins = append(ins, c07RIn{Changes: [][]c07Task{{x, sib}, {y}}, Chain: []bool{false, false}, Deferred: []bool{false, true},
+				Steps: []c07Step{{Ensure: true}, {Spawn: c07Int(1)}, {Finish: 1, Fail: true}, {Ensure: true}, {Ensure: true}, {Finish: 0}, {Ensure: true}, {Ensure: true}}})
+		}
+	}
+	return ins
+}
+
 func c07RGen(r *vh.Rand, tier string, n int) []c07RIn { return c07RGenMode(r, n, "") }
 
 func c07RGenMode(r *vh.Rand, n int, mode string) []c07RIn {
 	ins := c07Scripted(mode)
+	if mode == "" {
+		ins = append(ins, c07AbortFamily()...)
+	}
 	if n <= 0 {
 		n = 60
 	}
@@ -261,9 +301,14 @@ func c07RGenMode(r *vh.Rand, n int, mode string) []c07RIn {
 		}
 		in.Steps = append(in.Steps, c07Step{Ensure: true})
 		for k := rr.Range(4, 24); k > 0; k-- {
-			if rr.Chance(2, 5) {
+			switch x := rr.Intn(20); {
+			case x < 8:
 				in.Steps = append(in.Steps, c07Step{Ensure: true})
-			} else {
+			case x < 10: // user abort, usually while handlers of the change are executing
+				in.Steps = append(in.Steps, c07Step{Abort: c07Int(rr.Intn(len(in.Changes))), Guarded: true}, c07Step{Ensure: true})
+			case x < 12: // a handler fails: its lane(s) are aborted
+				in.Steps = append(in.Steps, c07Step{Finish: rr.Intn(8), Fail: true}, c07Step{Ensure: true})
+			default:
 				in.Steps = append(in.Steps, c07Step{Finish: rr.Intn(8)})
 			}
 		}
@@ -277,6 +322,7 @@ type c07Reg struct {
 	desc      map[string]c07Task       // task id -> description
 	waiting   map[string]chan struct{} // goroutines (handler or cleanup) blocked in a stub, by task id
 	executing map[string]bool          // do/undo handlers executing
+	failing   map[string]bool          // handlers told to return an error when released
 	snapshots []string                 // Coq CExec cases
 }
 
@@ -305,16 +351,15 @@ func c07WaitFor(what string, cond func() bool) {
 
 func c07RExec(in c07RIn) vh.Out {
 	w := c07NewWorld()
-	g := &c07Reg{desc: map[string]c07Task{}, waiting: map[string]chan struct{}{}, executing: map[string]bool{}}
+	g := &c07Reg{desc: map[string]c07Task{}, waiting: map[string]chan struct{}{}, executing: map[string]bool{}, failing: map[string]bool{}}
 	block := func(id string, tb *tomb.Tomb) {
 		g.mu.Lock()
 		ch := make(chan struct{})
 		g.waiting[id] = ch
 		g.mu.Unlock()
-		select {
-		case <-ch:
-		case <-tb.Dying():
-		}
+		// the stub does not watch tb.Dying(): like a real handler in the middle of its work it keeps executing after its
+		// task was aborted (Ensure only calls tomb.Kill), until the driver releases it
+		<-ch
 		g.mu.Lock()
 		delete(g.waiting, id)
 		g.mu.Unlock()
@@ -328,7 +373,11 @@ func c07RExec(in c07RIn) vh.Out {
 		block(id, tb)
 		g.mu.Lock()
 		delete(g.executing, id)
+		fail := g.failing[id]
 		g.mu.Unlock()
+		if fail {
+			return fmt.Errorf("verif: handler of task %s fails", id)
+		}
 		return nil
 	}
 	cleanup := func(t *state.Task, tb *tomb.Tomb) error {
@@ -389,8 +438,23 @@ func c07RExec(in c07RIn) vh.Out {
 		if s.Abort != nil {
 			w.st.Lock()
 			if ci := *s.Abort; ci >= 0 && ci < len(chgs) && chgs[ci] != nil {
-				chgs[ci].Abort()
-				tags["abort"] = true
+				ok := true
+				executing := false
+				for _, t := range chgs[ci].Tasks() {
+					if s.Guarded && t.Status() == state.DoneStatus {
+						ok = false
+					}
+					if t.Status() == state.DoingStatus {
+						executing = true
+					}
+				}
+				if ok {
+					chgs[ci].Abort()
+					tags["abort"] = true
+					if executing {
+						tags["abort-while-handler-executing"] = true
+					}
+				}
 			}
 			w.st.Unlock()
 			continue
@@ -497,11 +561,20 @@ func c07RExec(in c07RIn) vh.Out {
 			sort.Slice(ids, func(i, j int) bool { a, _ := strconv.Atoi(ids[i]); b, _ := strconv.Atoi(ids[j]); return a < b })
 			id := ids[s.Finish%len(ids)]
 			g.mu.Lock()
+			if s.Fail && g.executing[id] {
+				g.failing[id] = true
+				tags["handler-fails"] = true
+			}
 			close(g.waiting[id])
 			g.mu.Unlock()
 			c07WaitFor("tomb of finished task to go", func() bool { return !tombIDs()[id] })
 		}
 	}
+	g.mu.Lock()
+	for _, ch := range g.waiting {
+		close(ch)
+	}
+	g.mu.Unlock()
 	w.runner.Stop()
 	g.mu.Lock()
 	cases = append(cases, g.snapshots...)
